@@ -123,9 +123,24 @@ def source_text(case):
     lines.append("def make_node(c):")
     lines.append("    return c.plan.call(c.returns_list)")
     pad(0)
-    lines.append("def site(c):")
-    for ln in SITE[case["kind"]]:
-        lines.append("    " + ln)
+    if case.get("genroute"):
+        # the creating line sits in a helper called from ONE line of a generator that is advanced from whichever
+        # route comes by (a node factory written as a generator): same generator frame, same line, different callers
+        lines.append("def site_body(c):")
+        for ln in SITE[case["kind"]]:
+            lines.append("    " + ln)
+        lines.append("def site_gen(c):")
+        lines.append("    while True:")
+        lines.append("        site_body(c)")
+        lines.append("        yield")
+        lines.append("def site(c):")
+        lines.append("    if c.gen is None:")
+        lines.append("        c.gen = site_gen(c)")
+        lines.append("    next(c.gen)")
+    else:
+        lines.append("def site(c):")
+        for ln in SITE[case["kind"]]:
+            lines.append("    " + ln)
     prev = "site"
     for i in range(1, d + 1):
         pad(i)
@@ -204,6 +219,7 @@ def cases(draw):
         decoy = {"depth": draw(st.integers(0, 4)), "first": draw(st.sampled_from([True, True, False]))}
     return {"kind": draw(st.sampled_from(KINDS)), "depth": draw(st.integers(0, 8)), "decoy": decoy,
             "pads": draw(st.lists(st.integers(0, 3), min_size=1, max_size=5)),
+            "genroute": draw(st.sampled_from([False, False, True])),
             "workers": draw(st.integers(1, 3)), "scheduler": draw(st.sampled_from([None, "default", "random"]))}
 
 
@@ -228,7 +244,8 @@ def check_case(ctx, case, record=True):
         ctx.case(case, case["depth"] >= 1 or case["kind"] != "call",
                  [f"kind:{case['kind']}", f"depth:{case['depth']}",
                   "truncated" if case["depth"] + 2 > MAX_TRACEBACK_DEPTH + 1 else "not_truncated"]
-                 + (["second_route_to_site"] if case.get("decoy") else []))
+                 + (["second_route_to_site"] if case.get("decoy") else [])
+                 + (["site_inside_generator"] if case.get("genroute") else []))
     d = tempfile.mkdtemp(prefix="c19-")
     try:
         path = os.path.join(d, "user_module.py")
@@ -244,6 +261,7 @@ def check_case(ctx, case, record=True):
         c.done = threading.Event()
         c.error = None
         c.frames = None
+        c.gen = None
         c.node = None
         c.outer = None
         _thread.start_new_thread(ns["entry"], (c,))
